@@ -12,24 +12,43 @@ use std::net::Shutdown;
 use std::time::{Duration, Instant};
 use tiny_http::{Request, Response};
 
-fn collect(servers: &mut Servers, kind: &str, expect: usize, held: &mut Vec<Request>) -> Vec<Vec<u8>> {
+fn collect(servers: &mut Servers, kind: &str, expect: usize, held: &mut Vec<Request>, mine: &[Vec<u8>]) -> Vec<Vec<u8>> {
     let mut urls = Vec::new();
+    let mut take = |rq: Request, urls: &mut Vec<Vec<u8>>, held: &mut Vec<Request>| {
+        // a straggler of an earlier case's connection (parsed late from that connection's buffer) is not ours
+        if mine.iter().any(|u| u.as_slice() == rq.url().as_bytes()) {
+            urls.push(rq.url().as_bytes().to_vec());
+            held.push(rq);
+        } else {
+            let _ = rq.respond(Response::from_string("stale"));
+        }
+    };
     let t0 = Instant::now();
     while urls.len() < expect && t0.elapsed() < Duration::from_millis(3000) {
         if let Ok(Some(rq)) = servers.server(kind).recv_timeout(Duration::from_millis(5)) {
-            urls.push(rq.url().as_bytes().to_vec());
-            held.push(rq);
+            take(rq, &mut urls, held);
         }
     }
     // probe briefly for what must not be there
     let t1 = Instant::now();
     while t1.elapsed() < Duration::from_millis(100) {
         if let Ok(Some(rq)) = servers.server(kind).recv_timeout(Duration::from_millis(5)) {
-            urls.push(rq.url().as_bytes().to_vec());
-            held.push(rq);
+            take(rq, &mut urls, held);
         }
     }
     urls
+}
+
+/// the request targets that occur in this case's stream (every generated target is unique to its case)
+fn targets_of(stream: &[u8]) -> Vec<Vec<u8>> {
+    let mut out = Vec::new();
+    for line in stream.split(|b| *b == b'\n') {
+        let parts: Vec<&[u8]> = line.split(|b| *b == b' ').collect();
+        if parts.len() >= 3 && parts[2].starts_with(b"HTTP/") && parts[1].starts_with(b"/") {
+            out.push(parts[1].to_vec());
+        }
+    }
+    out
 }
 
 fn fmt(u: &[Vec<u8>]) -> String {
@@ -51,7 +70,8 @@ pub fn run_case(servers: &mut Servers, f: &[&str]) -> String {
     let _ = conn.write_all(&stream);
     conn.shutdown(Shutdown::Write);
     let mut held: Vec<Request> = Vec::new();
-    let a1 = collect(servers, kind, exp1, &mut held);
+    let mine = targets_of(&stream);
+    let a1 = collect(servers, kind, exp1, &mut held, &mine);
     // act on the last request obtained. Answering it, or reading the body of a request that expects
     // 100-continue, writes to the connection, which needs every earlier request to be answered first
     // (the responses leave in request order): those are answered now; plain reading needs nothing.
@@ -98,7 +118,7 @@ pub fn run_case(servers: &mut Servers, f: &[&str]) -> String {
             drop(w);
         }
     }
-    let a2 = collect(servers, kind, exp2, &mut held);
+    let a2 = collect(servers, kind, exp2, &mut held, &mine);
     for rq in held {
         let _ = rq.respond(Response::from_string("bye"));
     }
